@@ -266,4 +266,29 @@ theorem cmakeSegs_name_wf (atOnly : Bool) (f : Nat) (line : List Char) :
     exact ih t ht nm hm
 
 
+
+/-- a stateless encoder: the encoding of a concatenation is the concatenation of the encodings
+(single-byte code pages, utf-8, BOM-less utf-16/32; *not* codecs that emit a BOM or keep shift state) -/
+structure Codec.Stateless (c : Codec) : Prop where
+  nil : c.encode [] = some []
+  app : ∀ a b x y, c.encode a = some x → c.encode b = some y → c.encode (a ++ b) = some (x ++ y)
+
+theorem encode_flatMap {α : Type} (c : Codec) (hc : c.Stateless) (g : α → List Char) (b : α → Bytes) :
+    ∀ l : List α, (∀ x ∈ l, c.encode (g x) = some (b x)) → c.encode (l.flatMap g) = some (l.flatMap b) := by
+  intro l
+  induction l with
+  | nil => intro _; simpa using hc.nil
+  | cons x xs ih =>
+    intro h
+    simp only [List.flatMap_cons]
+    exact hc.app _ _ _ _ (h x (by simp)) (ih (fun y hy => h y (List.mem_cons_of_mem _ hy)))
+
+theorem latin1_stateless : latin1.Stateless := by
+  refine ⟨rfl, ?_⟩
+  intro a b x y ha hb
+  simp only [latin1] at ha hb ⊢
+  rw [List.mapM_append, ha, hb]
+  rfl
+
+
 end MesonModel.Template
